@@ -53,22 +53,26 @@ def main():
         rc, o = sh(f"go test -vet=off -count=1 ./{pkgdir}/ 2>&1 | tail -25", cwd=wt)
         meta["demo_with_patch"] = "fails (as required)" if "FAIL" in o else "PASSES (mutation not demonstrated): " + o[-300:]
         meta["demo_output_tail"] = o[-800:]
+        # run the checks against the scratch worktree (patch applied, demo removed): the same govc binary, contracts,
+        # baselines and known findings as for /repo, evidence written to a scratch directory
+        os.remove(demo_path)
+        sv = tempfile.mkdtemp(prefix="seedverif", dir="/tmp")
+        for d in ("baseline", "bounded"):
+            shutil.copytree(f"/verif/{d}", f"{sv}/{d}")
+        shutil.copy("/verif/known_findings.json", sv)
+        os.makedirs(f"{sv}/evidence")
+        results = {}
+        for c in checks:
+            rc, o = sh(f"/verif/bin/govc check {c} -repo {wt} -verif {sv}", cwd="/verif")
+            viol = [l for l in o.splitlines() if l.startswith("VIOLATION")]
+            results[c] = {"exit": rc, "violations": [v[:400].replace(sv, "/verif") for v in viol][:12], "summary": (o.strip().splitlines() or [""])[-1]}
+        shutil.rmtree(sv, ignore_errors=True)
     finally:
         sh(f"git -C /repo worktree remove --force {wt}")
-    # run the checks against /repo with the patch applied
-    rc, o = sh(f"git -C /repo apply {out}/patch.diff")
-    results = {}
-    try:
-        for c in checks:
-            rc, o = sh(f"/verif/bin/govc check {c}", cwd="/verif")
-            viol = [l for l in o.splitlines() if l.startswith("VIOLATION")]
-            results[c] = {"exit": rc, "violations": [v[:400] for v in viol][:12], "summary": (o.strip().splitlines() or [""])[-1]}
-    finally:
-        sh("git -C /repo checkout -- .")
     meta["checks_with_patch"] = results
     meta["caught_by"] = [c for c, r in results.items() if r["exit"] != 0]
     meta["commands"] = ["git worktree add (scratch); git apply patch.diff; go build ./...; go test -vet=off -count=1 -p 1 ./...; go test ./<pkg>/ with demo",
-                        "git -C /repo apply patch.diff; bin/govc check <id>; git -C /repo checkout -- ."]
+                        "in the same scratch worktree (patch applied): bin/govc check <id> -repo <worktree> -verif <scratch copy of baseline/known findings>"]
     json.dump(meta, open(os.path.join(out, "meta.json"), "w"), indent=1)
     print(json.dumps({k: meta[k] for k in ("name", "demo_on_clean_tree", "builds", "existing_suite_with_patch", "demo_with_patch", "caught_by")}, indent=1))
 
